@@ -47,6 +47,10 @@ NEUTRAL_DUNDERS = {"__init__", "__str__", "__repr__", "__post_init__",   # __pos
                    "__format__", "__doc__", "__slots__", "__annotations__", "__module__",
                    "__enter__", "__exit__", "__del__", "__sizeof__", "__dir__", "__class_getitem__"}
 COMMON = ("demeter/broker/", "demeter/_typing.py", "demeter/utils/", "demeter/__init__.py")
+# methods of Market that the ledgers treat as opaque sinks (confirmed by reading)
+LEDGER_SINKS = ("_record_action",)
+# exception classes of the repository and their bases (confirmed by reading)
+EXCEPTION_BASES = {"DemeterError": ("RuntimeError",), "DemeterWarning": ("RuntimeWarning",), "InsufficientBalanceError": ("DemeterError",)}
 # constants whose name states their value (confirmed by reading)
 from fractions import Fraction as _F
 NAMED_CONSTANTS = {("_typing", "DECIMAL_0"): _F(0), ("_typing", "DECIMAL_1"): _F(1), ("result.metrics.core", "DECIMAL_1"): _F(1),
@@ -203,6 +207,27 @@ def _transparent_decorator(dec: FuncInfo) -> bool:
     return returns_result(w.body) and not any(isinstance(n, (ast.Global, ast.Nonlocal)) for n in ast.walk(w))
 
 
+def _may_skip_call(dec: FuncInfo) -> Optional[str]:
+    """A repository decorator whose wrapper has a path that returns something other than the result of calling the wrapped
+    function (a stored value, a default): description of that path, or None."""
+    if not dec.params:
+        return None
+    fn = dec.params[0]
+    inners = [s for s in dec.node.body if isinstance(s, (ast.FunctionDef, ast.AsyncFunctionDef))]
+    if len(inners) != 1:
+        return None
+    w = inners[0]
+    calls = [n for n in ast.walk(w) if isinstance(n, ast.Call) and isinstance(n.func, ast.Name) and n.func.id == fn]
+    if not calls:
+        return "never calls the wrapped function"
+    result_names = {t.id for s in ast.walk(w) if isinstance(s, ast.Assign) and any(s.value is c for c in calls) for t in s.targets if isinstance(t, ast.Name)}
+    for r in ast.walk(w):
+        if isinstance(r, ast.Return) and r.value is not None and not any(r.value is c for c in calls) \
+                and not (isinstance(r.value, ast.Name) and r.value.id in result_names):
+            return f"has a path that returns `{ast.unparse(r.value)[:50]}` instead of the function's result (line {r.lineno})"
+    return None
+
+
 def world_rule(model: Model, res, scope: Tuple[str, ...] = (), rule: str = "R-WORLD"):
     prefixes = tuple(scope) + COMMON if scope else ()
 
@@ -242,6 +267,18 @@ def world_rule(model: Model, res, scope: Tuple[str, ...] = (), rule: str = "R-WO
                                            f"the evaluator assumes field-wise equality"))
             for f in own:
                 nm = f.name
+                if nm in ("__init_subclass__", "__set_name__", "__new__") and (c.name, nm) not in MODELLED_DUNDERS:
+                    # a class-creation hook that assigns attributes of the (sub)class replaces methods behind every definition
+                    me = f.params[0] if f.params else "cls"
+                    hits = [x for x in ast.walk(f.node) if (isinstance(x, ast.Assign) and any(isinstance(t, ast.Attribute) and isinstance(t.value, ast.Name)
+                                                                                            and t.value.id in (me, "owner") for t in x.targets))
+                            or (isinstance(x, ast.Call) and isinstance(x.func, ast.Name) and x.func.id == "setattr" and x.args
+                                and isinstance(x.args[0], ast.Name) and x.args[0].id in (me, "owner"))]
+                    if hits:
+                        findings.append(("W4", f.loc(hits[0]), f.qualname, f"{nm} rewrites attributes of the class",
+                                         f"{c.name}.{nm} assigns attributes of every (sub)class at class-creation time (`{ast.unparse(hits[0])[:70]}`): "
+                                         f"the methods of the subclasses of {c.name} are no longer the functions their `def` statements define"))
+                        continue
                 if not (nm.startswith("__") and nm.endswith("__")) or nm in NEUTRAL_DUNDERS:
                     continue
                 if (c.name, nm) in MODELLED_DUNDERS or (c.name in CONTAINER_CLASSES and nm in CONTAINER_DUNDERS):
@@ -299,9 +336,49 @@ def world_rule(model: Model, res, scope: Tuple[str, ...] = (), rule: str = "R-WO
                 tgt = model.resolve_expr_symbol(m, d.func if isinstance(d, ast.Call) else d)
                 if isinstance(tgt, FuncInfo) and not isinstance(d, ast.Call) and _transparent_decorator(tgt):
                     continue
+                if isinstance(tgt, FuncInfo) and not isinstance(d, ast.Call):
+                    skip = _may_skip_call(tgt)
+                    if skip is not None:
+                        findings.append(("W3", f.loc(), f.qualname, f"@{dn} can return without running the function",
+                                         f"{f.qualname} is wrapped by `@{dn}` whose wrapper {skip}: the result of a call is then not what "
+                                         f"the body of {f.name} computes from the current arguments and state (a memo / short-circuit kept "
+                                         f"outside the function)"))
+                        continue
                 refuse.append(("W3", f.loc(), f.qualname, f"@{dn}",
                                f"{f.qualname} is wrapped by `@{dn}`, which is neither a modelled decorator nor a transparent wrapper: what a call of "
                                f"{f.name} does is no longer what its body says"))
+    # ---- W8 the sinks the ledgers end in are the base class's: every ledger treats `self._record_action(...)` (the action
+    #         log) as an opaque sink defined once in `Market`; a subclass that overrides it changes what "recorded" means for
+    #         all of its operations without changing any operation
+    base = model.classes.get("Market")
+    if base is not None:
+        for sink in LEDGER_SINKS:
+            bf = base.methods.get(sink)
+            if bf is None:
+                continue
+            want = ast.dump(ast.Module(body=bf.node.body, type_ignores=[]))
+            for c in model.subclasses("Market"):
+                f = c.methods.get(sink)
+                if f is None or f.cls is not c or not in_scope(c.module.relpath):
+                    continue
+                n += 1
+                body = [st for st in f.node.body if not (isinstance(st, ast.Expr) and isinstance(st.value, ast.Constant))]
+                if ast.dump(ast.Module(body=body, type_ignores=[])) != want:
+                    findings.append(("W8", f.loc(), f.qualname, f"override of the ledger sink {sink}",
+                                     f"{c.name} overrides `{sink}`, the sink in which every operation's ledger ends (defined once in Market): "
+                                     f"what the operations of {c.name} record / deliver is no longer what their ledgers say"))
+    # ---- W7 the exception hierarchy decides which `except` clause catches a rejection (the bar-end liquidation survives
+    #         AssertionError only, the run loop handles RuntimeError): the repository's exception classes keep their bases
+    for cname, want in EXCEPTION_BASES.items():
+        c = model.classes.get(cname)
+        if c is None or not in_scope(c.module.relpath):
+            continue
+        n += 1
+        got = tuple(ast.unparse(b).split(".")[-1] for b in c.base_exprs)
+        if got != want:
+            findings.append(("W7", f"{c.module.relpath}:{c.node.lineno}", cname, f"bases of {cname}",
+                             f"class {cname}{got} no longer derives from {want}: `except` clauses of the library (and the analysis' own exception "
+                             f"matching) decide by this hierarchy which rejections are survived, rolled back or let through"))
     # ---- W6 a constant whose NAME states its value means that value (code and references both read it by name, so a changed
     #         value would be invisible to every identity check)
     from fractions import Fraction
